@@ -87,6 +87,14 @@ def close(a: complex, b: complex, scale: float = 0.0, tol: float = 1e-9) -> bool
         return False
     return abs(a - b) <= tol * (1.0 + max(scale, abs(a), abs(b)))
 
+def rclose(a: complex, b: complex, scale: float, tol: float = 1e-9) -> bool:
+    """purely relative agreement: |a − b| ≤ tol · max(scale, |a|, |b|) — no absolute floor,
+    so networks with pico-ampere sources are judged as strictly as ordinary ones"""
+    a = complex(a); b = complex(b)
+    if not (cmath.isfinite(a) and cmath.isfinite(b)):
+        return False
+    return abs(a - b) <= tol * max(scale, abs(a), abs(b))
+
 # --------------------------------------------------------------------------- rng
 
 class Rng(random.Random):
